@@ -299,65 +299,32 @@ def deep_compare(obj1: Any,
                         return result
             else:
                 try:
-                    if isinstance(value1, bool):
-                        if not isinstance(value2, bool):
-                            return -1
-                        elif value1 is not value2:
-                            return -1 if value1 else 1
+                    # untyped values are compared as strings
+                    if isinstance(value1, UntypedAtomic):
+                        value1 = value1.value
+                    if isinstance(value2, UntypedAtomic):
+                        value2 = value2.value
 
-                    elif isinstance(value2, bool):
-                        return -1
-
-                    elif isinstance(value1, UntypedAtomic):
-                        if isinstance(value2, UntypedAtomic):
-                            result = cm.strcoll(str(value1), str(value2))
-                            if result:
-                                return result
-                        else:
-                            msg = msg_tmpl.format(value1, value2)
-                            raise xpath_error('XPTY0004', msg, token)
-
-                    elif isinstance(value2, UntypedAtomic):
-                        msg = msg_tmpl.format(value1, value2)
-                        raise xpath_error('XPTY0004', msg, token)
-
-                    elif isinstance(value1, float):
-                        if math.isnan(value1):
-                            if not isinstance(value2, (float, Decimal)) \
-                                    or not math.isnan(value2):
-                                return -1
-                        elif math.isinf(value1):
-                            if value1 != value2:
-                                return -1 if value1 < value2 else 1
-                        elif isinstance(value2, Decimal):
-                            if value1 != float(value2):
-                                return -1 if value1 < float(value2) else 1
-                        elif not isinstance(value2, (value1.__class__, int)):
-                            return -1
-                        elif value1 != value2:
-                            return -1 if value1 < value2 else 1
-
-                    elif isinstance(value2, float):
-                        if math.isnan(value2):
-                            return -1
-                        elif math.isinf(value2):
-                            if value1 != value2:
-                                return -1 if value1 < value2 else 1
-                        elif isinstance(value1, Decimal):
-                            if value2 != float(value1):
-                                return -1 if float(value1) < value2 else 1
-                        elif not isinstance(value1, (value2.__class__, int)):
-                            return -1
-                        elif value1 != value2:
-                            return -1 if value1 < value2 else 1
-
-                    elif isinstance(value1, (str, AnyURI, UntypedAtomic)) \
-                            and isinstance(value2, (str, AnyURI, UntypedAtomic)):
+                    if isinstance(value1, (str, AnyURI)) and isinstance(value2, (str, AnyURI)):
                         result = cm.strcoll(str(value1), str(value2))
                         if result:
                             return result
-                    elif value1 != value2:
-                        return -1 if value1 < value2 else 1
+                    elif not XPathToken.is_comparable(value1, value2, ordering=True):
+                        msg = msg_tmpl.format(value1, value2)
+                        raise xpath_error('XPTY0004', msg, token)
+                    elif isinstance(value1, float) and math.isnan(value1):
+                        # NaN is equal to itself and less than any other value
+                        if not isinstance(value2, float) or not math.isnan(value2):
+                            return -1
+                    elif isinstance(value2, float) and math.isnan(value2):
+                        return 1
+                    else:
+                        if isinstance(value1, float) and isinstance(value2, Decimal):
+                            value2 = float(value2)
+                        elif isinstance(value1, Decimal) and isinstance(value2, float):
+                            value1 = float(value1)
+                        if value1 != value2:
+                            return -1 if value1 < value2 else 1
 
                 except TypeError as err:
                     raise xpath_error('XPTY0004', message_or_error=err, token=token)
